@@ -389,22 +389,19 @@ class Scenario:
                 return ("A-partial", f"{where}: {st[1]}")
             if label == "status" and self.p["kind"] == "status":
                 versions = [json.loads(v) for v in ref["info"]["versions"]]
-                if completed:
-                    if st[0] != "json" or st[1] != versions[-1]:
-                        return ("A-final", f"{where}: status file is not the last status written")
-                    continue
-                i = 0
-                for at, lab in ref["marks"]:
-                    if at <= fault.at:
-                        i = lab[1]
-                allowed_prev = versions[i - 1] if i > 0 else None
+                i = len(versions) - 1
+                if not completed:
+                    i = 0
+                    for at, lab in ref["marks"]:
+                        if at <= fault.at:
+                            i = lab[1]
+                # any complete status of the sequence so far is a legitimate "previous or new
+                # version" (a producer may throttle or skip dumps); garbage or a status that was
+                # never written is not
                 if st[0] == "json":
-                    if st[1] != versions[i] and st[1] != allowed_prev:
-                        return ("A-stale", f"{where}: status file holds a status that is neither update {i - 1} nor {i}")
-                elif st[0] == "prev":
-                    if i > 0:
-                        return ("A-stale", f"{where}: status file went back to the previous run's content after update {i - 1} was published")
-                elif st[0] == "absent" and (i > 0 or self.prev.get(label) is not None):
+                    if st[1] not in versions[: i + 1]:
+                        return ("A-stale", f"{where}: status file holds a status that was never written up to update {i}")
+                elif st[0] == "absent" and self.prev.get(label) is not None:
                     return ("A-vanished", f"{where}: status file vanished")
                 continue
             if st[0] == "json":
